@@ -19,7 +19,7 @@ class Contract:
     def __init__(self, target, serves=(), types=None, returns=None, requires=(), ensures=(), raises=None,
                  loops=None, modifies=(), ghosts=None, on_call=None, examples=None, variant='', trusted=False,
                  locals=None, self_fields=None, notes='', assumes=(), lemmas=(), opaque_loops=(), fix=None, params=None,
-                 rebinds=(), allocates=False, new_graph_schema='mol', opaque=(), abstract=(), heap_invariants=(), callee_clauses=None, returns_fresh=False):
+                 rebinds=(), allocates=False, new_graph_schema='mol', opaque=(), abstract=(), heap_invariants=(), callee_clauses=None, returns_fresh=False, wf_all_graphs=False):
         self.target = target          # 'cgsmiles.resolve:compatible' / 'cgsmiles.resolve:MoleculeResolver.resolve'
         self.variant = variant
         self.serves = list(serves)
@@ -45,6 +45,7 @@ class Contract:
         self.rebinds = list(rebinds)          # 'self.x' fields the method re-binds
         self.allocates = allocates            # creates graphs (heap must be havoc'd even without a modifies clause)
         self.new_graph_schema = new_graph_schema
+        self.wf_all_graphs = wf_all_graphs    # assume well-formedness of every allocated graph (graphs reached via dicts / attributes)
         self.returns_fresh = returns_fresh    # the returned graph is newly allocated by the call
         self.callee_clauses = dict(callee_clauses or {})   # callee name -> substrings selecting which of its ensures are used here
         self.heap_invariants = set(heap_invariants)   # data invariants assumed of every graph and re-proved at each write
